@@ -202,6 +202,29 @@ def oracle_ifmr(chk, label, ifm, rng, npts=400):
                 seen.add(key)
                 chk.fail("remnant mass is inside the final-mass bounds declared for its class", dict(label, mi=float(m), cls=t),
                          dict(mf=float(f), bounds=[float(bnd[t].lower), float(bnd[t].upper)]), wd_peak=peak)
+    # integer-typed progenitor masses (python int, numpy int, integer arrays) give the same remnants as the equal floats
+    ints = [int(x) for x in range(max(int(math.ceil(0.7)), 1), int(min(top, 150)) + 1)]
+    ints = rng.sample(ints, min(len(ints), 25)) + [int(min(top, 150))]
+    try:
+        ref_f = np.asarray(ifm.predict(np.array(ints, dtype=float)), dtype=float)
+        for form, val in (("int array", np.array(ints)), ("int list", list(ints))):
+            got_i = np.asarray(ifm.predict(val if form == "int array" else np.array(val)), dtype=float)
+            if not np.allclose(got_i, ref_f, rtol=1e-12, atol=0, equal_nan=True):
+                j_ = int(np.flatnonzero(~np.isclose(got_i, ref_f, rtol=1e-12, atol=0, equal_nan=True))[0])
+                chk.fail("scalar prediction agrees with array prediction", dict(label, mi=ints[j_], form=form), dict(from_int=float(got_i[j_]), from_float=float(ref_f[j_])))
+        for m_i in ints[:5]:
+            for form, val in (("int", int(m_i)), ("np.int64", np.int64(m_i))):
+                try:
+                    g_ = float(ifm.predict(val))
+                except Exception as e:  # noqa
+                    if not isinstance(e, (TypeError, IndexError)):
+                        chk.fail("scalar prediction agrees with array prediction", dict(label, mi=m_i, form=form), type(e).__name__)
+                    continue
+                r_ = float(ifm.predict(np.float64(m_i)))
+                if not (abs(g_ - r_) <= 1e-12 * abs(r_)):
+                    chk.fail("scalar prediction agrees with array prediction", dict(label, mi=m_i, form=form), dict(from_int=g_, from_float=r_))
+    except Exception as e:  # noqa
+        chk.fail("array prediction does not raise inside the range", dict(label, form="integer masses"), type(e).__name__)
     # scalar / numpy scalar / python float agree with the array
     for m in rng.sample(list(ms), 6):
         for form, val in (("np.float64", np.float64(m)), ("float", float(m)), ("0-d", np.array(m))):
